@@ -15,6 +15,8 @@ def showRData : RData → String
   | .soa m r a b c d e => s!"SOA,{showName m},{showName r},{a},{b},{c},{d},{e}"
   | .srv p w q n => s!"SRV,{p},{w},{q},{showName n}"
   | .txt ss => ",".intercalate ("TXT" :: ss.map toHex)
+  | .hinfo c o => s!"HINFO,{toHex c},{toHex o}"
+  | .caa c r t v => s!"CAA,{if c then 1 else 0},{r},{toHex t},{toHex v}"
 
 def showRec (r : Rec) : String := s!"{showName r.name}/{r.cls}/{r.ttl}/{showRData r.data}"
 
